@@ -21,6 +21,21 @@ VIA = ["json", "msgpack", "cbor"]
 PROTO = ("ProtocolError", "InvalidUriError")
 
 
+def run_impl_chunks(ck, op, cases, nproc=8, timeout=3000):
+    """run the implementation driver on slices of the case list in parallel processes; results in order"""
+    from concurrent.futures import ThreadPoolExecutor
+    if len(cases) < 400:
+        nproc = 1
+    size = (len(cases) + nproc - 1) // nproc or 1
+    parts = [cases[i:i + size] for i in range(0, len(cases), size)] or [[]]
+    with ThreadPoolExecutor(max_workers=nproc) as ex:
+        outs = list(ex.map(lambda p_: ck.run_impl("wamp_messages.py", {"op": op, "cases": p_}, timeout=timeout), parts))
+    res = {"installed": outs[0]["installed"], "results": []}
+    for o in outs:
+        res["results"] += o["results"]
+    return res
+
+
 def regenerate_shape(ck):
     """translators/schema_shape.py -> coq/Gen/WampShape.v ; a ShapeError leaves a file that cannot compile"""
     import schema_shape
@@ -69,7 +84,12 @@ def report_broken_obligations(ck, broken):
     for cls, strs, detail in changed:
         hit = None
         for key, what, path, found in ck.viol:
-            if found and key.startswith(cls) and (not strs or any(x and x in key for x in strs)):
+            if not (found and key.startswith(cls)):
+                continue
+            # attribute only a finding about the element that changed; a structural change (lengths, indices)
+            # shows up as a length / round-trip failure
+            if (strs and any(x and (f"/{x}/" in key or f"+{x}" in key or f"{x}+" in key) for x in strs)) or \
+                    (not strs and ("/length/" in key or "/roundtrip/" in key)):
                 hit = (key, path)
                 break
         key = f"{cls}/shape-changed/{'+'.join(strs) or 'structure'}"
@@ -294,8 +314,7 @@ def run(ck):
             c = json.load(open(os.path.join(corpus_dir, fn)))
             corpus.append((c["cls"], "corpus", c["where"], c.get("desc", fn), W.dec(c["w"])))
     grid = corpus + grid
-    payload = {"op": "parse", "cases": [{"cls": c, "w": W.enc(w), "via": VIA} for c, _, _, _, w in grid]}
-    r = ck.run_impl("wamp_messages.py", payload, timeout=1500)
+    r = run_impl_chunks(ck, "parse", [{"cls": c, "w": W.enc(w), "via": VIA} for c, _, _, _, w in grid])
     if not r["installed"]["ubjson"]:
         ck.notes.append("UBJSON not installed (bjdata import broken in this sandbox): serializer skipped")
     coq_cases, coq_meta = [], []
@@ -437,7 +456,7 @@ def run(ck):
         cases.append({"ser": sn, "batched": batched, "hex": data.hex(), "kind": "valid"})
         if batched:
             cases.append({"ser": sn, "batched": True, "hex": (data + data).hex(), "kind": "valid-batch2"})
-    r = ck.run_impl("wamp_messages.py", {"op": "octets", "cases": cases}, timeout=3000)
+    r = run_impl_chunks(ck, "octets", cases)
     coq_cases, coq_meta, bcases, bmeta = [], [], [], []
     for c, res in zip(cases, r["results"]):
         ck.evaluations += 1
@@ -472,7 +491,7 @@ def run(ck):
                                  f"outcome of a batch ({oc}) is not that of its first failing message ({first_bad})",
                                  {"ser": c["ser"], "batched": c["batched"], "hex": c["hex"]}, found_input=True)
         # batching framing: the model splits the same octets into the same chunks
-        if c["batched"] and len(c["hex"]) <= 400 and len(bcases) < 3000:
+        if c["batched"] and len(c["hex"]) <= 400 and len(bcases) < (800 if ck.quick() else 6000):
             data = bytes.fromhex(c["hex"])
             exp = split_oracle(c["ser"], data)
             bcases.append("(%d, [%s], %s)" % (0 if c["ser"] == "json" else 1, ";".join(str(b) for b in data),
